@@ -139,6 +139,8 @@ def run(mid, all_checks=False, tier="quick"):
         m["caught_by_other_checks"] = sorted(p for p, e in res.items() if e.get("exit") == 1 and p != m["property"])
     finally:
         sh(["git", "-C", REPO, "checkout", "--", "."])
+        # never leave a harness binary built from the patched crate behind
+        sh(["cargo", "build", "--release", "--offline"], cwd=os.path.join(ROOT, "harness"))
         # the evidence files written while the patch was applied do not describe /repo: restore them
         sh(["git", "checkout", "--", "evidence"], cwd=ROOT)
     fresh = load_meta(mid)          # `confirm` may have written in the meantime
